@@ -460,8 +460,9 @@ def guard_groups():
 
 _G20 = groups()
 _UR = ur_group()
-for _g in _G20 + [_UR]:
+for _g in _G20:
     _g.replay = "replay/opseq.cpp"
+_UR.replay = "replay/snapshot.cpp"
 _GUARDS = guard_groups()
 GROUPS = {
     "C20": _G20 + [_UR],
